@@ -81,6 +81,13 @@ func choicesOf(ps []Point, n int) []int {
 // Explore runs the scenario under every schedule within opts.Bound deviations (or all, if
 // opts.Unbounded) and every environment choice.
 func Explore(sc *Scenario, opts Options) (Stats, []Violation) {
+	if opts.StarveSteps == 0 {
+		opts.StarveSteps = 400
+	}
+	if opts.Starve > 0 {
+		// the starvation clock is not part of the state key
+		opts.UseCache = false
+	}
 	if opts.MaxSteps == 0 {
 		opts.MaxSteps = 200000
 	}
@@ -229,6 +236,13 @@ func Explore(sc *Scenario, opts Options) (Stats, []Violation) {
 
 // Replay runs one schedule and returns its outcome.
 func Replay(sc *Scenario, choices []int, opts Options) *Outcome {
+	if opts.StarveSteps == 0 {
+		opts.StarveSteps = 400
+	}
+	if opts.Starve > 0 {
+		// the starvation clock is not part of the state key
+		opts.UseCache = false
+	}
 	if opts.MaxSteps == 0 {
 		opts.MaxSteps = 200000
 	}
